@@ -366,6 +366,9 @@ var c11Sets = map[string][]string{
 	"http-sub-localhost-lookalike": {"http://app.localhost.x.example:8080/cb"},
 	"http-dot-localhost":           {"http://app.localhost/cb"},
 	"with-repeated-query-key":      {"https://app.example/cb?aud=web&aud=api"},
+	"escaped-slash-in-path":        {"https://app.example/cb/tenant%2Fprod"},
+	// a client registered without any redirect URI (e.g. for client_credentials only): nothing qualifies
+	"none-registered": {},
 }
 
 type c11Case struct {
@@ -391,7 +394,10 @@ func c11MutByName(n string) c11Mut {
 
 func c11Run(c c11Case, res *WRes) {
 	reg := c11Sets[c.Set]
-	requested := reg[0]
+	requested := "https://app.example/cb"
+	if len(reg) > 0 {
+		requested = reg[0]
+	}
 	for _, mn := range c.Muts {
 		requested = func() (out string) {
 			defer func() {
